@@ -18,11 +18,16 @@
     grid's canonical dimension names is: same shape and, element by element,
     `(x == y) | (isnull x & isnull y)` — `arrEq valEq` (1-D, shape = length) and `connEq`
     (2-D shape + flat data).
+  * `gridEqConnDA` — node variables compared, but `face_node_connectivity` with
+    `DataArray.equals` again (a partial regression): every coordinate of the source dataset on
+    `n_face` / `n_max_face_nodes` and every scalar coordinate leaks into `==`
+    (`conn_coords_violate_spec`).
   * `gridEqCoords` — `and`, but `DataArray.equals`, which ALSO compares the xarray *coordinates*
-    attached to the arrays.  Readers leave `node_lon`/`node_lat` either as plain data variables
+    attached to the arrays (`cLon`, `cLat`, `cConn`: whatever coordinates of the source dataset
+    live on a dimension of the variable, plus scalar coordinates).  Readers leave `node_lon`/`node_lat` either as plain data variables
     (no coordinates on them) or as coordinates of the dataset (Exodus reader, files that declare
     them as coordinates), in which case each of the two variables carries BOTH as coordinates:
-    flag `coordVars`.  `node_lon.equals` then also compares the latitudes and the flag itself — a
+    `cLon = cLat = [node_lon, node_lat]`.  `node_lon.equals` then also compares the latitudes and the flag itself — a
     grid detail the property does not mention (`coords_structure_violates_spec`).
   * `gridEqAsIs` — the snapshot: `DataArray.equals` joined with `or`.
 
@@ -59,7 +64,14 @@ def arrEq {α : Type} (eq : α → α → Bool) : List α → List α → Bool
 
 /-! ### grids as `__eq__` sees them -/
 
-/-- The four things `Grid.__eq__` reads.  `spec` = code points of `repr(source_grid_spec)`,
+/-- an xarray coordinate attached to a compared variable: its name (code points) and its values
+    (bit patterns of the values as doubles). -/
+structure Coord where
+  name : List Nat
+  vals : List Nat
+  deriving DecidableEq, Repr
+
+/-- The four things `Grid.__eq__` reads (and the coordinates it must not read).  `spec` = code points of `repr(source_grid_spec)`,
     `lon`/`lat` = bit patterns of `node_lon`/`node_lat`, `conn` = `face_node_connectivity`
     of shape `(nFace, width)` flattened row-major (padding is the ordinary integer `FILL`). -/
 structure Grid where
@@ -69,8 +81,13 @@ structure Grid where
   nFace : Nat
   width : Nat
   conn : List Int
-  /-- `node_lon`/`node_lat` are xarray coordinates (each variable carries both as coords) -/
-  coordVars : Bool := false
+  /-- xarray coordinates attached to `node_lon` (sorted by name): whatever coordinates of the
+      source dataset live on `n_node`, plus scalar coordinates -/
+  cLon : List Coord := []
+  /-- … attached to `node_lat` -/
+  cLat : List Coord := []
+  /-- … attached to `face_node_connectivity` (coordinates on `n_face`, `n_max_face_nodes`, scalars) -/
+  cConn : List Coord := []
   deriving DecidableEq, Repr
 
 /-- shapes are consistent (what every real grid satisfies; used only by non-vacuity examples
@@ -79,16 +96,15 @@ def Grid.wf (g : Grid) : Bool := g.lon.length == g.lat.length && g.conn.length =
 
 def intEq (x y : Int) : Bool := x == y
 
-/-- comparison of the coordinates attached to `node_lon` (and likewise to `node_lat`): same
-    coordinate names, and equal values when there are any. -/
-def coordsEq (a b : Grid) : Bool :=
-  a.coordVars == b.coordVars &&
-    (!a.coordVars || (arrEq valEq a.lon b.lon && arrEq valEq a.lat b.lat))
+/-- comparison of the coordinates attached to two arrays by `DataArray.equals`: the same
+    coordinate names with equal values (lists are sorted by name). -/
+def coordEq (x y : Coord) : Bool := x.name == y.name && arrEq valEq x.vals y.vals
+def coordsEq (xs ys : List Coord) : Bool := arrEq coordEq xs ys
 
 /-- `self.node_lon.equals(other.node_lon)` (DataArray: values and coordinates) -/
-def lonEqDA (a b : Grid) : Bool := arrEq valEq a.lon b.lon && coordsEq a b
+def lonEqDA (a b : Grid) : Bool := arrEq valEq a.lon b.lon && coordsEq a.cLon b.cLon
 /-- `self.node_lat.equals(other.node_lat)` (DataArray: values and coordinates) -/
-def latEqDA (a b : Grid) : Bool := arrEq valEq a.lat b.lat && coordsEq a b
+def latEqDA (a b : Grid) : Bool := arrEq valEq a.lat b.lat && coordsEq a.cLat b.cLat
 /-- `self.node_lon.variable.equals(other.node_lon.variable)` (Variable: dims, shape, values) -/
 def lonEq (a b : Grid) : Bool := arrEq valEq a.lon b.lon
 /-- `self.node_lat.variable.equals(other.node_lat.variable)` -/
@@ -104,13 +120,22 @@ def gridEq (a b : Grid) : Bool :=
   else if !(connEq a b) then false
   else true
 
-/-- **Impl before fixes/C20-eq-compares-variables.patch** — `and`, `DataArray.equals`
-    (coordinates compared too). -/
+/-- `self.face_node_connectivity.equals(other.face_node_connectivity)` (DataArray) -/
+def connEqDA (a b : Grid) : Bool := connEq a b && coordsEq a.cConn b.cConn
+
+/-- **Impl before fixes/C20-eq-compares-variables.patch** — `and`, `DataArray.equals` on all
+    three variables (coordinates compared too). -/
 def gridEqCoords (a b : Grid) : Bool :=
   if a.spec != b.spec then false
   else if !(lonEqDA a b && latEqDA a b) then false
-  else if !(connEq a b) then false
+  else if !(connEqDA a b) then false
   else true
+
+/-- a partial regression of that fix: node variables compared, connectivity as a DataArray. -/
+def gridEqConnDA (a b : Grid) : Bool :=
+  if a.spec != b.spec then false
+  else if !(lonEq a b && latEq a b) then false
+  else connEqDA a b
 
 /-! ### backing state of the compared variables (numpy / dask)
 
@@ -195,7 +220,7 @@ def BGrid.kind (a : BGrid) : String :=
 def gridEqAsIs (a b : Grid) : Bool :=
   if a.spec != b.spec then false
   else if !(lonEqDA a b || latEqDA a b) then false
-  else if !(connEq a b) then false
+  else if !(connEqDA a b) then false
   else true
 
 /-- a *projection-comparing* variant (NOT what the code does; kept as the model of a plausible
@@ -223,7 +248,7 @@ def pyNe (a : Grid) (o : Obj) : Bool := !pyEq a o
 /-- `Grid.copy()` as `__eq__` sees it: a new grid object over the same variables and spec. -/
 def copy (a : Grid) : Grid :=
   { spec := a.spec, lon := a.lon, lat := a.lat, nFace := a.nFace, width := a.width, conn := a.conn,
-    coordVars := a.coordVars }
+    cLon := a.cLon, cLat := a.cLat, cConn := a.cConn }
 
 /-! ### decidable specification (stated independently of the early-return chain) -/
 
@@ -234,6 +259,10 @@ def sameB (a b : Grid) : Bool :=
 
 /-- checker of `Spec a b eqOut neOut` (Props/C20.lean proves the reflection). -/
 def specB (a b : Grid) (eqOut neOut : Bool) : Bool := (eqOut == sameB a b) && (neOut == !eqOut)
+
+/-- the coordinates attached to the three compared variables are the same on both sides -/
+def sameCoords (a b : Grid) : Bool :=
+  coordsEq a.cLon b.cLon && coordsEq a.cLat b.cLat && coordsEq a.cConn b.cConn
 
 /-- names of the fields in which two grids differ (for signatures and the evidence). -/
 def differing (a b : Grid) : List String :=
